@@ -27,6 +27,7 @@ import resp
 import xsw
 import xswdoc
 import c01ids
+import c01s4
 from xswdoc import ASSERTION, RESPONSE, SIG, ENCASSERTION, ALGS
 from pipeline import SPCase
 from core import Exn, call, cstr, cbool, copt, clist
@@ -58,8 +59,9 @@ POLN = {"fail": 0, "first": 1, "last": 2}
 
 
 class Doc(object):
-    def __init__(self, name, level, alg, xml, encrypted, kind, base):
+    def __init__(self, name, level, alg, xml, encrypted, kind, base, light=False):
         self.name, self.level, self.alg, self.xml, self.encrypted, self.kind, self.base = name, level, alg, xml, encrypted, kind, base
+        self.light = light          # light: one SP, one tool policy, the tool unit on every 4th only, the required settings
 
 
 def set_policy(p):
@@ -125,6 +127,19 @@ def build_documents(ctx):
                     muts += xswdoc.signed_near_misses(lv, alg) if level != "both" else []
             for name, m in muts:
                 docs.append(Doc(name, level, alg[0], m, False, "mutated", None))
+            # ---- identifiers that look like options of the tool or need quoting (round 4, class a)
+            ido = c01s4.option_like_ids(g, level, ctx.rng, per_id_slots=(1 if ctx.quick else None))
+            if ctx.quick and (not full or level == "both"):
+                ido = ctx.rng.sample(ido, min(len(ido), 3 if not full else 8))
+            for name, m in ido:
+                docs.append(Doc(name, level, alg[0], m, False, "mutated", None, light=True))
+            if full and level == "both":
+                # genuine messages whose OWN identifiers look like options / need quoting must still pass
+                for rid, aid in (("--r 1", "-a'1"), ("--node-id", "--id-attr:ID")):
+                    docs.append(Doc("genuine", level, alg[0], xswdoc.genuine(rs, as_, alg=alg, rid=rid, aid=aid), False, "genuine", None, light=True))
+                # ---- several plain assertions next to an EncryptedAssertion (class b): the few that also go through the units
+                for md in c01s4.multi_unit_docs(alg):
+                    docs.append(Doc(md.name, "response" if md.rsig else "assertion", alg[0], md.xml, False, "mutated-multi", None, light=True))
             # ---- encrypted carriers
             ge = xswdoc.genuine(rs, as_, encrypted=True, alg=alg)
             docs.append(Doc("genuine", level, alg[0], ge, True, "genuine", None))
@@ -307,7 +322,7 @@ def _run(ctx):
             # ---- unit tool_verify
             qs, got = [], []
             ids = ids_by_name(root)
-            for tag, nm in ((RESPONSE, NAME["response"]), (ASSERTION, NAME["assertion"])):
+            for tag, nm in ((RESPONSE, NAME["response"]), (ASSERTION, NAME["assertion"])) if (not d.light or di % 4 == 0) else ():
                 for nid in ids[tag][:4] + ["no-such-id", None]:
                     for cert in ("idp", "other"):
                         for pol in pols:
@@ -317,8 +332,9 @@ def _run(ctx):
                             qs.append("(%d, %d, %s, %d)" % (POLN[pol], xswdoc.node_name_n(nm), copt(nid, cstr), xswdoc.KEYID[cert]))
                             ctx.count("tool:%s" % ("OK" if got[-1] else "FAIL"))
             set_policy("fail")
-            tool_cases.append(dict(id=len(tool_cases), coq=cd.wrap("(%s, [%s])" % (tree, "; ".join(qs))), impl=got,
-                                   show=dict(doc=d.name, level=d.level, alg=d.alg, stage=stage, queries=len(qs))))
+            if qs:
+                tool_cases.append(dict(id=len(tool_cases), coq=cd.wrap("(%s, [%s])" % (tree, "; ".join(qs))), impl=got,
+                                       show=dict(doc=d.name, level=d.level, alg=d.alg, stage=stage, queries=len(qs))))
             # ---- unit check_item + statement oracle
             qs, got = [], []
             for item, nm, px, what in items_of(text):
@@ -336,7 +352,7 @@ def _run(ctx):
                                     % (what, d.name, stage, item.id, lit, sorted(c01ids.element_at(root, px).attrib)),
                                     dict(unit="ident", doc=d.name, level=d.level, alg=d.alg, encrypted=d.encrypted, stage=stage, what=what,
                                          policy="fail", xml=d.xml))
-                for spx, certs, cnames in ((sp1, [1], ["idp"]), (sp2, [3, 1], ["other", "idp"])):
+                for spx, certs, cnames in ((sp1, [1], ["idp"]), (sp2, [3, 1], ["other", "idp"]))[:1 if d.light else 2]:
                     for pol in pols:
                         set_policy(pol)
                         ctx.rec.reset()
@@ -383,7 +399,8 @@ def _run(ctx):
                              show=dict(tables=len(chunk), first=[list(a) for a in tabs[0]])))
     ctx.count("item_id:attribute-tables", len(keys))
     ctx.correspond("item_id", "Model.XswIds", "show_item_ids", "(list (list (option str * str * str)))", id_cases)
-    oracle_pipeline(ctx, docs)
+    oracle_pipeline(ctx, [d for d in docs if d.kind != "mutated-multi"])
+    oracle_multi_assertion(ctx)
     unit_library_output(ctx)
 
 
@@ -407,7 +424,9 @@ def oracle_pipeline(ctx, docs):
         full = (d.alg == ALGS[main][0]) or not ctx.quick
         required = {"response": (True, False, False), "assertion": (False, True, False), "both": (True, True, False)}[d.level]
         settings = SETTINGS if full else [required, (False, False, True), ctx.rng.choice(SETTINGS)]
-        if full and ctx.quick and d.name.startswith("id-"):
+        if d.light and ctx.quick and d.kind == "mutated":
+            settings = sorted(set([required, (False, False, True)])) if d.level != "both" else [(True, False, False), (False, True, False), (False, False, True)]
+        elif full and ctx.quick and d.name.startswith("id-"):
             # the identifier families: each single requirement and the document's own one (quick tier)
             settings = sorted(set([(True, False, False), (False, True, False), (False, False, True), required]))
         root = xswdoc.parse_text(d.xml)
@@ -472,6 +491,50 @@ def oracle_pipeline(ctx, docs):
                                     dict(unit="pipeline-variant", doc=d.name, level=d.level, alg=d.alg, encrypted=d.encrypted, variant=label,
                                          setting=required, policy=pol, xml=d.xml))
     set_policy("fail")
+
+
+def oracle_multi_assertion(ctx):
+    """class (b): whatever an accepted response hands to the application comes from assertions that were individually
+    checked - walk over the number of plain assertions, which one is genuine, the other ones' signatures, the
+    EncryptedAssertion filler and its place, response signed or not, and all 8 requirement settings"""
+    main = ALGS[ctx.seed % len(ALGS)]
+    mdocs = c01s4.multi_docs(ctx.rng, main, ctx.quick)
+    if not ctx.quick:
+        for alg in ALGS:
+            if alg is not main:
+                mdocs += c01s4.multi_docs(ctx.rng, alg, True)
+    set_policy("fail")
+    for md in mdocs:
+        for st in SETTINGS:
+            ctx.rec.reset()
+            got = c01s4.observe_multi(SPCase(wrs=st[0], was=st[1], waors=st[2]).sp(), md.xml)
+            acc = isinstance(got, dict)
+            ctx.count("multi-assertion:%d-plain:%s" % (md.n, "accepted" if acc else "rejected"))
+            if any(st):
+                ctx.nontriv(("multi", md.name, st))
+            inp = dict(unit="multi", doc=md.name, alg=md.alg, setting=st, policy="fail", xml=md.xml,
+                       spec=dict(n=md.n, gpos=md.gpos, fkinds=md.fkinds, filler=md.filler, fpos=md.fpos, rsig=md.rsig))
+            for tag, msg in c01ids.audit(ctx.rec):
+                ctx.oracle_fail("handed-over:%s:pipeline:multi:%s" % (tag, md.name), "'%s' under %s: %s" % (md.name, st, msg), inp)
+            if not acc or not any(st):
+                continue
+            ids, names, vals = md.trusted(st)
+            bad = []
+            for cell in ("name_id", "info_name_id"):
+                if got[cell] not in names:
+                    bad.append("%s=%r" % (cell, got[cell]))
+            for cell in ("ava", "identity", "info_ava"):
+                if not got[cell] <= vals:
+                    bad.append("%s has %r" % (cell, sorted(got[cell] - vals)))
+            if not set(got["assertions"]) <= ids or got["assertion"] not in ids:
+                bad.append("assertions %r / %r" % (got["assertions"], got["assertion"]))
+            if bad:
+                ctx.oracle_fail("identity-from-unchecked-assertion:%s:setting-%s" % (md.name, "".join("1" if x else "0" for x in st)),
+                                "'%s' accepted under want_response_signed=%s want_assertions_signed=%s want_assertions_or_response_signed=%s; "
+                                "what may be relied upon: assertions %r (name ids %r); but %s"
+                                % (md.name, st[0], st[1], st[2], sorted(ids), sorted(names), "; ".join(bad)), inp)
+            elif len(ctx.samples) < 9:
+                ctx.sample(dict(doc=md.name, setting=st, outcome={k: (sorted(v) if isinstance(v, set) else v) for k, v in got.items()}))
 
 
 _variants = {}
@@ -607,6 +670,18 @@ def replay(ctx, payload):
                         for tag, msg in c01ids.audit(rec):
                             print("VIOLATED %s: %s" % (tag, msg))
                             bad += 1
+            elif inp.get("unit") == "multi":
+                st = inp.get("setting") or (False, True, False)
+                sp_ = inp.get("spec") or {}
+                got = c01s4.observe_multi(SPCase(wrs=st[0], was=st[1], waors=st[2]).sp(), xml)
+                print("implementation outcome:", got)
+                if isinstance(got, dict) and sp_:
+                    md = c01s4.Multi(inp.get("doc"), xml, sp_["n"], sp_["gpos"], sp_["fkinds"], sp_["filler"], sp_["fpos"], sp_["rsig"], inp.get("alg"))
+                    ids, names, vals = md.trusted(st)
+                    print("may be relied upon: assertions %r, name ids %r, values %r" % (sorted(ids), sorted(names), sorted(vals)))
+                    if got["name_id"] not in names or got["info_name_id"] not in names or not (got["ava"] | got["identity"] | got["info_ava"]) <= vals \
+                            or not set(got["assertions"]) <= ids or got["assertion"] not in ids:
+                        bad += 1
             elif inp.get("unit") == "check_item":
                 sp1 = SPCase(wrs=True, was=True).sp()
                 text = xml if inp.get("stage") != "decrypted" else decrypted_text(sp1, xml)
